@@ -48,8 +48,7 @@ def deltaLine (ts : List String) : String :=
       let bidir := bd == "T"
       let d := buildDelta (!bidir) (aw == "T" || bidir) t1 t2 r
       let fwd := applyDelta bidir d base
-      let rev := applyDelta bidir (reverseDelta d) base2
-      showDelta d ++ " ;; " ++ showState fwd ++ " ;; " ++ (if bidir then showState rev else "refused")
+      showDelta d ++ " ;; " ++ showState fwd ++ " ;; " ++ (match subDelta bidir d base2 with | .ok rev => showState rev | .error _ => "refused")
     | _, _, _ => "bad-op"
   | _ => "bad-op"
 
